@@ -6,9 +6,11 @@
        printf writes), then x is STRICTLY nearer to d than every other binary64 number (so a strtod that returns a
        nearest double — whatever its tie rule — returns x). Zero is printed exactly. [sixteen_digits_collide]: with 16
        digits ('%.15e') two neighbouring doubles share their nearest decimal.
-   (2) NARROW SUBSCRIPT TYPES (finding C16-N4). `A.subs[i, :] + 1` computed in an integer type with range lo..hi:
-       the written subscript is s + 1 exactly when s <> hi; at s = hi it is lo (<= 0), which import_data (base 1)
-       rejects. *)
+   (2) NARROW SUBSCRIPT TYPES (finding C16-N4, repaired in /repo dda4ae2). The old code computed `A.subs[i, :] + 1` in the
+       integer type (range lo..hi) of the subscript array: the written subscript was s + 1 exactly when s <> hi
+       (narrow_subs_exact, kept as the arithmetic of the old defect). The repaired code converts to Python integers first
+       (`str(int(s) + 1)`): the text written is s + b in Z whatever the type, and the sparse import with the same base reads
+       s back — at s = hi as well (narrow_subs_roundtrip). *)
 From Coq Require Import String.
 From Coq Require Import List ZArith QArith Qabs Qpower Lia Lqa.
 From PV Require Import Model.C16IO Model.C16Lines Model.C16Big.
@@ -170,8 +172,8 @@ Proof.
   - intro Hne. apply wrap_below_max; lia.
 Qed.
 
-(* the wrapped subscript text is rejected by the sparse import with index base 1 (subscript - 1 is negative), on
-   whichever entry line it stands *)
+(* (history, old code) the wrapped subscript text was rejected by the sparse import with index base 1 (subscript - 1 is
+   negative), on whichever entry line it stood *)
 Theorem narrow_subs_rejected (T : Type) lo hi (pre post : list (token T)) :
   lo <= 0 <= hi -> zsubs_of T 1 (pre ++ Int (wrap lo hi (hi + 1)) :: post) = None.
 Proof.
@@ -179,6 +181,17 @@ Proof.
   - unfold zsub_of. destruct (0 <=? lo - 1) eqn:E; [apply Z.leb_le in E; lia | reflexivity].
   - rewrite IH. destruct (zsub_of T 1 t); reflexivity.
 Qed.
+
+(* the repaired export writes s + b computed in Z (Python integers): a row of subscripts of ANY integer type, its largest
+   value hi included, is read back by the sparse import with the same index base *)
+Theorem narrow_subs_roundtrip (T : Type) (b hi : Z) (i : list Z) : Forall (fun s => 0 <= s <= hi) i ->
+  zsubs_of T b (map (fun s => Int (s + b)) i) = Some i.
+Proof.
+  induction i as [|s i IH]; intros H; [reflexivity|]. inversion H as [|? ? Hs Hi]; subst. cbn [map zsubs_of].
+  unfold zsub_of. replace (s + b - b) with s by lia. destruct (Z.leb_spec 0 s); [|lia]. now rewrite IH.
+Qed.
+Example narrow_subs_uint8_max : zsubs_of unit 1 [Int (255 + 1); Int (0 + 1); Int (127 + 1)] = Some [255; 0; 127].
+Proof. reflexivity. Qed.
 
 Example narrow_subs_uint8 : wrap 0 255 (255 + 1) = 0 /\ wrap (-128) 127 (127 + 1) = -128 /\ wrap 0 255 (254 + 1) = 255.
 Proof. vm_compute. repeat split; reflexivity. Qed.
